@@ -152,7 +152,7 @@ class ProjectiveDrawing(Drawing):
             default_kwargs[key] = value
 
         x, y = pointlist.affine_coords(chart_index=self.chart_index).T
-        plt.plot(x, y, **default_kwargs)
+        self.ax.plot(x, y, **default_kwargs)
 
     def draw_curve(self, points, **kwargs):
         pointlist = self.preprocess_object(points)
@@ -540,7 +540,7 @@ class HyperbolicDrawing(Drawing):
             default_kwargs[key] = value
 
         x, y = pointlist.coords(self.model).T
-        plt.plot(x, y, **default_kwargs)
+        self.ax.plot(x, y, **default_kwargs)
 
     def get_circle_arcpath(self, center, radius, theta):
         """Get a matplotlib path object for the circular arc representing this
@@ -814,4 +814,4 @@ class CP1Drawing(Drawing):
             default_kwargs[key] = value
 
         x, y = pointlist.real_affine_coords().T
-        plt.plot(x, y, **default_kwargs)
+        self.ax.plot(x, y, **default_kwargs)
